@@ -204,6 +204,16 @@ def _gen_data(bd):
     return out
 
 
+def _interrupted(bd, fills):
+    """a delimiter interrupted by exactly one (two) search window(s) of filler: delim[:k] + filler + delim[k:]"""
+    delim = CRLF + b'--' + bd
+    tl = len(delim)
+    for k in range(1, tl):
+        for f in fills:
+            yield delim[:k] + b'a' * (tl * f) + delim[k:]
+            yield b'a' + delim[:k] + b'\r' * (tl * f) + delim[k:]
+
+
 def _all_bytes(bd):
     return bytes(range(256)).replace(CRLF + b'--' + bd, b'')
 
@@ -241,6 +251,16 @@ def _gen_bodies(tier, seed):
                 combos = [(h, e) for h in hdrs[:2] for e in ENDINGS]
             for h, e in combos:
                 yield bd, _build([(h, d)], bd, e), 0
+        # a stale partial match must not survive a window
+        if len(bd) <= 4 and (not quick or bi in (0, 2)):
+            for d in _interrupted(bd, (1,) if quick else (1, 2)):
+                yield bd, _build([(b'h', d)], bd, ENDINGS[1]), 0
+        # state left behind by one delimiter must not leak into the next part: the next data starts like a delimiter remainder
+        if len(bd) <= 4 and (not quick or bi in (0, 2)):
+            delim = CRLF + b'--' + bd
+            for k in range(1, len(delim)):
+                for d1 in ((delim[:k],) if quick else (delim[:k], b'', b'a')):
+                    yield bd, _build([(b'h', d1), (b'h', delim[k:] + b'z')], bd, ENDINGS[0]), 0
         # RFC 7578 header blocks
         for hi in (2, 3):
             for di in ((1, 14) if quick else (0, 1, 12, 14, 18)):
@@ -316,7 +336,7 @@ def _prefix_cases(bodies, fam, tier):
                 complete = ln == len(body)
                 lim = full_dlim if complete else dlim
                 yield dict(kind='mk', fam=fam, bd=bd, s=s, complete=1 if complete else 0,
-                           dbl='all' if ln <= lim else 'near', nrand=nrand)
+                           dbl='all' if ln <= lim else 'near', nrand=nrand, tri=2 if tier == 'quick' else 3)
 
 
 def _app_fields(bd):
@@ -392,7 +412,7 @@ def gen_cases(tier, seed):
     # (ss) start region, exhaustive DFS
     for s, st in _dfs_start_region(b'X', 12 if quick else 14, 3):
         if _split_ok(s, b'X'):
-            yield dict(kind='mk', fam='dfs', bd=b'X', s=s, complete=1 if st == 'complete' else 0, dbl='all', nrand=4 if quick else 12)
+            yield dict(kind='mk', fam='dfs', bd=b'X', s=s, complete=1 if st == 'complete' else 0, dbl='all', nrand=4 if quick else 12, tri=2 if quick else 3)
     # (ss) stem + exhaustive data + terminators, header blocks, token data: all prefixes, each once
     yield from _prefix_cases(((bd, body, 0) for bd, body in _ss_bodies(tier)), 'ss', tier)
     # (gen) generated well-formed bodies and their prefixes
@@ -422,7 +442,7 @@ def _res(m):
     return secs, (type(m.error).__name__ if m.error is not None else None)
 
 
-def _divisions(s, bd, dbl, nrand):
+def _divisions(s, bd, dbl, nrand, tri=3):
     """(clause, cuts) for every division of the plan; cuts are strictly increasing positions in 1..n-1."""
     n = len(s)
     for i in range(1, n):
@@ -449,8 +469,8 @@ def _divisions(s, bd, dbl, nrand):
                 yield 'M4.multi_cut', cuts
     else:
         for i in range(1, n):
-            for a in (1, 2, 3):
-                for b in (1, 2, 3):
+            for a in range(1, tri + 1):
+                for b in range(1, tri + 1):
                     if i + a + b < n:
                         yield 'M4.multi_cut', (i, i + a, i + a + b)
     if n >= 5 and nrand:
@@ -487,7 +507,7 @@ def _run_mk(case):
         f = _anchor(s, bd, ref)
         if f is not None:
             return f
-    for clause, cuts in _divisions(s, bd, case['dbl'], case['nrand']):
+    for clause, cuts in _divisions(s, bd, case['dbl'], case['nrand'], case.get('tri', 3)):
         m = _feed(bd, s, cuts)
         if m.markups != ref_markups or type(m.error) is not ref_err:
             cuts = list(cuts)
